@@ -1,8 +1,10 @@
 #!/bin/sh
-# Offline setup: nothing is built or fetched; byte-compile the framework and make
-# sure the repo's interpreter can import it.
+# Offline setup: nothing is built or fetched; byte-compile the framework, make sure the repo's
+# interpreter can import it, and prove determinism on a handful of seeds (same seed twice, at two
+# worker counts, in separate fresh interpreters; digests must be equal).
 set -e
 cd "$(dirname "$0")"
 /venv/bin/python -m compileall -q sim >/dev/null
-/venv/bin/python -c "import sys; sys.path.insert(0, '.'); import sim.core"
+/venv/bin/python -c "import sys; sys.path.insert(0, '.'); import sim.core, sim.runner, sim.c14_vectors, sim.c03_history, sim.c09_identity, sim.c19_docs"
+VERIF_SELFTEST_RUNS=6 ./check selftest
 echo setup-ok
